@@ -62,6 +62,60 @@ def _canon(ctx, call):
     return c
 
 
+def _N(text, mapping=None):
+    """canonical spelling (A.norm_src) of an expression given as text."""
+    return A.norm_src(ast.parse(text, mode="eval").body, mapping)
+
+
+def _asserts(t, pol, text, neg_text=None, mapping=None):
+    """Polarity with which the branch literal (t, pol) asserts the condition *text* (*neg_text*: the spelling of its
+    negation, e.g. `a != b` for `a == b`), however the comparison is oriented; None when it is another condition."""
+    n = A.norm_src(t, mapping)
+    if n == _N(text):
+        return pol
+    if neg_text is not None and n == _N(neg_text):
+        return not pol
+    return None
+
+
+def _deref(p, expr, upto):
+    """(value, clean): a local Name is replaced by the value of its last definition on the path before event *upto*
+    (`_ret = f(x); return _ret` reads `return f(x)`), transitively.  clean is False when the name is read between that
+    definition and *upto*, or when its last binding is not a plain single-target assignment: the two spellings are then
+    not known to be equivalent."""
+    clean = True
+    for _ in range(6):
+        if not isinstance(expr, ast.Name):
+            break
+        defs = [(i, e[1]) for i, e in enumerate(p.ev[:upto]) if e[0] in ("stmt", "partial", "iter", "with")
+                and expr.id in [n for t in A.assigned_targets(e[1]) for n in A.target_names(t)]]
+        if not defs:
+            break
+        i, st = defs[-1]
+        if not (p.ev[i][0] == "stmt" and isinstance(st, ast.Assign) and len(st.targets) == 1 and isinstance(st.targets[0], ast.Name)):
+            return expr, False
+        for k, n in p.exprs():
+            if i < k < upto and any(isinstance(x, ast.Name) and x.id == expr.id for x in A.walk_local(n)):
+                clean = False
+        for e in p.ev[i + 1:upto]:
+            if e[0] == "partial" and any(isinstance(x, ast.Name) and x.id == expr.id for x in A.walk_local(e[1])):
+                clean = False
+        upto, expr = i, st.value
+    return expr, clean
+
+
+def _returned_call(body):
+    """The call whose result a body consisting of `return f(...)` -- or of `r = f(...); return r` -- returns; else None."""
+    if len(body) == 1 and isinstance(body[0], ast.Return):
+        v = body[0].value
+    elif len(body) == 2 and isinstance(body[0], ast.Assign) and len(body[0].targets) == 1 and isinstance(body[0].targets[0], ast.Name) \
+            and isinstance(body[1], ast.Return) and isinstance(body[1].value, ast.Name) and body[1].value.id == body[0].targets[0].id:
+        v = body[0].value
+    else:
+        return None
+    return v if isinstance(v, ast.Call) else None
+
+
 # -- C17-a -----------------------------------------------------------------------------------
 def check_delegation(ctx):
     res = ctx.res
@@ -81,28 +135,40 @@ def check_delegation(ctx):
               "given: for non-negative indices the result is then no longer xs[start:stop:step]",
               detail="Slice(non-negative) delegates to islice(iterable, *args)", construct="slice-islice")
     if ok:
-        conds = [(A.src(t), pol) for t, pol in _enclosing_conds(lam[0], init)]
-        want = "all([val is None or val >= 0 for val in %s])" % va
-        got = [c for c, pol in conds if pol]
-        norm = lambda x: x.replace("(", "").replace(")", "").replace("[", "").replace("]", "")
-        # the loop variable of the comprehension is local: compare structurally
+        # the loop variable of the comprehension is local: compare structurally (and in canonical spelling: `0 <= v` is `v >= 0`)
         guard_ok = False
         for t, pol in _enclosing_conds(lam[0], init):
             if pol and isinstance(t, ast.Call) and res.call_canon(t) == "builtins.all" and len(t.args) == 1 \
                     and isinstance(t.args[0], (ast.ListComp, ast.GeneratorExp)):
                 g = t.args[0]
                 v = A.src(g.generators[0].target)
-                guard_ok = A.src(g.generators[0].iter) == va and not g.generators[0].ifs \
-                    and A.src(g.elt) in ("%s is None or %s >= 0" % (v, v), "%s >= 0 or %s is None" % (v, v))
+                guard_ok = len(t.args[0].generators) == 1 and A.src(g.generators[0].iter) == va and not g.generators[0].ifs \
+                    and isinstance(g.elt, ast.BoolOp) and isinstance(g.elt.op, ast.Or) \
+                    and sorted(A.norm_src(x) for x in g.elt.values) == sorted([_N("%s is None" % v), _N("%s >= 0" % v)])
         ctx.check("C17-a", guard_ok, lam[0], "the islice delegation is not guarded by `all(v is None or v >= 0 for v in args)`: islice "
                   "raises for negative indices, and the negative algorithm is needed exactly when some index is negative",
                   detail="delegation guarded by all-non-negative", construct="slice-guard")
     run = ctx.tree.func(IT, "Slice.run")
     fp = [p for p in A.func_params(run) if p != "self"]
     rets = [r for r in A.walk_local(run) if isinstance(r, ast.Return)]
-    ok = len(rets) == 1 and isinstance(rets[0].value, ast.Call) and A.src(rets[0].value.func) == "self._islice" \
-        and [A.src(a) for a in rets[0].value.args] == fp
-    ctx.check("C17-a", ok, run, "Slice.run does not return self._islice(flow)", detail="Slice.run = self._islice(flow)", construct="slice-run")
+    ok = len(rets) == 1
+    undecided = None
+    if ok:
+        # the returned value, a local dereferenced to its definition on the path (`r = self._islice(flow); return r`)
+        rpaths = list(P.paths_of(run))
+        ok = bool(rpaths) and all(p.end == "return" and p.has(rets[0]) for p in rpaths)
+        for p in rpaths if ok else []:
+            v, clean = _deref(p, rets[0].value, p.index(rets[0]))
+            if not clean:
+                undecided = v
+                break
+            rebound = [s for s in p.stmts() if any(n in fp for t in A.assigned_targets(s) for n in A.target_names(t))]
+            ok = ok and isinstance(v, ast.Call) and A.src(v.func) == "self._islice" and [A.src(a) for a in v.args] == fp \
+                and not v.keywords and not rebound
+    if undecided is not None:
+        ctx.unknown("C17-a", run, "Slice.run returns a local whose value `%s` is used before it is returned" % A.short(undecided, 50))
+    else:
+        ctx.check("C17-a", ok, run, "Slice.run does not return self._islice(flow)", detail="Slice.run = self._islice(flow)", construct="slice-run")
     ind = [s for s in A.walk_local(init) if isinstance(s, ast.Assign) and any(A.is_self_attr(t, "_indices") for t in s.targets)]
     ok = len(ind) == 1 and isinstance(ind[0].value, ast.Call) and A.src(ind[0].value.func) == "self._islice" and len(ind[0].value.args) == 1 \
         and isinstance(ind[0].value.args[0], ast.Call) and _canon(ctx, ind[0].value.args[0]) == "itertools.count" \
@@ -174,15 +240,17 @@ def _check_yield_from(ctx, fn, qual, pred, what, key):
             and A.src(body[0].value.value) == A.src(loops[0].target) and not loops[0].orelse
     else:
         yf = [s for s in A.body_wo_doc(fn) if isinstance(s, ast.Expr) and isinstance(s.value, ast.YieldFrom)]
-        rt = [s for s in A.body_wo_doc(fn) if isinstance(s, ast.Return)]
+        rc = _returned_call(A.body_wo_doc(fn))
         if len(A.body_wo_doc(fn)) == 1 and yf and isinstance(yf[0].value.value, ast.Call):
             ok = pred(yf[0].value.value)
-        elif len(A.body_wo_doc(fn)) == 1 and rt and isinstance(rt[0].value, ast.Call):
-            ok = pred(rt[0].value)
+        elif rc is not None:
+            ok = pred(rc)
     ctx.check("C17-a", ok, fn, "%s does not yield every value of %s, in order" % (qual, what), detail="%s = %s" % (qual, what), construct=key)
 
 
 def _enclosing_conds(node, stop):
+    """Branch literals (expr, polarity) that hold where *node* stands, from the if statements around it up to *stop*:
+    `if not c: ... else: <node>` gives (c, True) just as `if c: <node>` does (see A.literals)."""
     out = []
     child = node
     for a in A.ancestors(node):
@@ -190,9 +258,9 @@ def _enclosing_conds(node, stop):
             break
         if isinstance(a, ast.If):
             if any(child is x for x in a.body):
-                out.append((a.test, True))
+                out.extend(A.literals(a.test, True))
             elif any(child is x for x in a.orelse):
-                out.append((a.test, False))
+                out.extend(A.literals(a.test, False))
         child = a
     return out
 
@@ -241,8 +309,13 @@ def check_rejection(ctx):
     step = unp[0].targets[0].elts[2].id
     nm = {step: "step"}
     # step None -> 1
-    dflt = [i for i in A.walk_local(init) if isinstance(i, ast.If) and A.src_with(i.test, nm) == "step is None"
-            and any(isinstance(b, ast.Assign) and A.src_with(b, nm) == "step = 1" for b in i.body)]
+    dflt = []
+    for i in A.walk_local(init):
+        if isinstance(i, ast.If):
+            t, pol = A.strip_not(i.test)
+            holds = _asserts(t, pol, "step is None", "step is not None", nm)
+            if holds is not None and any(isinstance(b, ast.Assign) and A.src_with(b, nm) == "step = 1" for b in (i.body if holds else i.orelse)):
+                dflt.append(i)
     ctx.check("C17-b", len(dflt) == 1, init, "a missing step is not replaced by 1 on the negative path", detail="step None -> 1", construct="slice-step-default")
     # the check precedes every binding of run, on every path
     n = 0
@@ -251,8 +324,9 @@ def check_rejection(ctx):
         if not binds:
             continue
         n += 1
-        lits = K.lit_srcs(p, nm, upto=binds[0])
-        ok = "not (step <= 0)" in lits and "not (int(step) != step)" in lits
+        lits = K.lit_srcs(p, nm, upto=binds[0], norm=True)
+        ok = ("not (%s)" % _N("step <= 0") in lits or _N("step > 0") in lits) \
+            and ("not (%s)" % _N("int(step) != step") in lits or _N("int(step) == step") in lits)
         key = ("bind", ok)
         if key in seen:
             continue
@@ -263,7 +337,7 @@ def check_rejection(ctx):
     ctx.instances_floor("C17-b/bind", n, 2, "paths of Slice.__init__ that bind run")
     # run for step != 1
     for st in [x for x in A.walk_local(init) if isinstance(x, ast.Assign) and any(A.is_self_attr(t, "run") for t in x.targets)]:
-        conds = [(A.src_with(t, nm), pol) for t, pol in _enclosing_conds(st, init)]
+        conds = [_asserts(t, pol, "step != 1", "step == 1", nm) for t, pol in _enclosing_conds(st, init)]
         v = st.value
         if not (isinstance(v, ast.Lambda) and len(A.func_params(v)) == 1):
             ctx.unknown("C17-b", st, "run bound to `%s`" % A.short(v, 50))
@@ -271,7 +345,7 @@ def check_rejection(ctx):
         fp = A.func_params(v)[0]
         b = v.body
         inner = "self._run_negative_islice(%s)" % fp
-        if ("step != 1", True) in conds:
+        if True in conds:
             ok = isinstance(b, ast.Call) and _canon(ctx, b) == "itertools.islice" and [A.src_with(a, nm) for a in b.args] == [inner, "None", "None", "step"]
             ctx.check("C17-b", ok, st, "for a step other than 1 run is `%s`, not islice(self._run_negative_islice(flow), None, None, step)"
                       % A.short(b, 70), detail="step != 1: every step-th value of the negative selection", construct="slice-run-step")
@@ -292,7 +366,7 @@ def check_stop(ctx):
     n = 0
     for p in P.paths_of(fn):
         fills = [c for _, c in p.calls() if isinstance(c.func, ast.Attribute) and c.func.attr == "fill" and A.src(c.func.value) == ps[0]]
-        incs = [s for s in p.stmts() if isinstance(s, ast.AugAssign) and A.src(s.target) == "self._index"]
+        incs = [A.as_augassign(s) for s in p.stmts() if A.as_augassign(s) is not None and A.src(A.as_augassign(s)[0]) == "self._index"]
         if p.end == "raise":
             r = [s for s in p.stmts() if isinstance(s, ast.Raise)][-1]
             in_stop = any(e[0] == "exc" and e[1].type is not None and res.canon(e[1].type) == "builtins.StopIteration" for e in p.ev)
@@ -304,9 +378,10 @@ def check_stop(ctx):
                       detail="LenaStopFill only when next(self._indices) is exhausted", construct="stop-raise", path=p)
             continue
         n += 1
-        sel = [pol for t, pol in p.literals() if A.src(t) == "self._index == self._next_index"]
+        sel = [_asserts(t, pol, "self._index == self._next_index", "self._index != self._next_index") for t, pol in p.literals()]
+        sel = [x for x in sel if x is not None]
         want = 1 if (sel and sel[-1]) else 0
-        ok = len(incs) == 1 and isinstance(incs[0].op, ast.Add) and A.is_const(incs[0].value, 1) and len(fills) == want and bool(sel)
+        ok = len(incs) == 1 and isinstance(incs[0][1], ast.Add) and A.is_const(incs[0][2], 1) and len(fills) == want and bool(sel)
         if ok and fills:
             ok = A.src(fills[0]) == "%s.fill(%s)" % (ps[0], ps[1])
         ctx.check("C17-c", ok, fn, "Slice.fill_into [%s]: %d fill(s), index advanced %d time(s): a value is filled exactly when its "
@@ -316,7 +391,8 @@ def check_stop(ctx):
         # the next index is fetched only when the current one has been passed
         fetch = [e[1] for e in p.ev if e[0] == "stmt" and isinstance(e[1], ast.Assign) and "next(self._indices)" in A.src(e[1])]
         if fetch:
-            adv = [pol for t, pol in p.literals() if A.src(t) == "self._index > self._next_index"]
+            adv = [_asserts(t, pol, "self._index > self._next_index", "self._index <= self._next_index") for t, pol in p.literals()]
+            adv = [x for x in adv if x is not None]
             ctx.check("C17-c", adv == [True] and A.src(fetch[0].targets[0]) == "self._next_index", fetch[0],
                       "the next selected index is fetched although the current one has not been passed (or is not stored in _next_index)",
                       detail="next index fetched when _index > _next_index", construct="stop-fetch", path=p)
@@ -477,7 +553,7 @@ def check_window(ctx):
                 shapes.append(S(ys[0][1].value))
         # the last window
         nxt = _next_stmt(l)
-        ok = isinstance(nxt, ast.If) and S(nxt.test) in ("len(window) == n", "n == len(window)", "len(window) == self._cs") and not nxt.orelse \
+        ok = isinstance(nxt, ast.If) and A.norm_src(nxt.test, nm) in (_N("len(window) == n"), _N("len(window) == self._cs")) and not nxt.orelse \
             and len([y for y in A.walk_body(nxt.body) if isinstance(y, ast.Yield)]) == 1
         ctx.check("C17-e", ok, l, "after the loop the last window is not yielded exactly under `len(window) == n`: a flow shorter than the "
                   "chunk size must yield nothing, a longer one must not lose its last window", detail="last window only if full",
